@@ -469,9 +469,10 @@ def Target.requestURI (u : Target) : Bytes :=
   (if u.parsedQueryArgs then (if u.queryArgs.isEmpty then [] else 63 :: appendArgs u.queryArgs)
    else if u.queryString.isEmpty then [] else 63 :: u.queryString)
 
-/-- `method SP target SP HTTP/1.1` -/
+/-- `method SP target SP HTTP/1.1` as `RequestHeader.AppendBytes` writes it: both parts through `appendRequestLinePart` -/
 def requestLine (method target : Bytes) : Bytes :=
-  (if method.isEmpty then strGet else method) ++ [32] ++ (if target.isEmpty then strSlash else target) ++ [32] ++ strHTTP11
+  reqLinePart (if method.isEmpty then strGet else method) ++ [32] ++ reqLinePart (if target.isEmpty then strSlash else target) ++
+    [32] ++ strHTTP11
 
 /-! ### the header work of `req.Write` / `resp.Write` for a message whose body is a byte slice -/
 
